@@ -36,6 +36,8 @@ def c01_strata(tier: str) -> List[Stratum]:
         Stratum("names", scale(tier, 3000, 200000),
                 lambda r, i: tg.gen_mixed(r, 1, 6, ["ok"], False, False, kinds=[r.choice(tg.TYPE1_KINDS)],
                                           op_filter=lambda o: o == "set_device_name")),
+        Stratum("long-lived", scale(tier, 120, 6000), lambda r, i: tg.gen_long(r, r.randrange(150, 400)),
+                note="150-400 operations on one API object with occasional reconnects: state that builds up"),
     ]
 
 
@@ -48,6 +50,7 @@ def c02_strata(tier: str) -> List[Stratum]:
         Stratum("schedules", scale(tier, 5000, 400000),
                 lambda r, i: tg.gen_mixed(r, 1, 8, ["ok"], False, True, zone_sensitive=True, kinds=["heater"],
                                           op_filter=lambda o: o in ("create_schedule", "delete_schedule"))),
+        Stratum("long-lived", scale(tier, 100, 5000), lambda r, i: tg.gen_long(r, r.randrange(150, 400), [r.choice(["heater", "plug", "runner"])])),
     ]
 
 
@@ -62,11 +65,13 @@ def c03_strata(tier: str) -> List[Stratum]:
                 lambda r, i: tg.gen_mixed(r, r.choice([1, 2]), 6, ["ok", "ok", "segment", "extra", "truncate"], False, True)),
         Stratum("three-to-four-instances", scale(tier, 1500, 200000),
                 lambda r, i: tg.gen_mixed(r, r.choice([3, 4]), 5, ["ok"], True, True, same_device=r.random() < 0.4)),
+        Stratum("long-lived", scale(tier, 120, 6000), lambda r, i: tg.gen_long(r, r.randrange(150, 400))),
     ]
 
 
 def c08_strata(tier: str) -> List[Stratum]:
-    return [Stratum("states", scale(tier, 14000, 1500000), lambda r, i: tg.gen_c08(r))]
+    return [Stratum("states", scale(tier, 14000, 1500000), lambda r, i: tg.gen_c08(r)),
+            Stratum("long-lived", scale(tier, 100, 5000), lambda r, i: tg.gen_long(r, r.randrange(150, 400)))]
 
 
 def c09_strata(tier: str) -> List[Stratum]:
@@ -101,6 +106,8 @@ def c18_strata(tier: str) -> List[Stratum]:
         Stratum("all-sequences", n, lambda r, i: tg.gen_c18(r, i, m), systematic=True,
                 note="every well-behaved action sequence up to length %d over an 11-letter alphabet" % m),
         Stratum("random", scale(tier, 6000, 600000), lambda r, i: tg.gen_c18(r)),
+        Stratum("long-lived", scale(tier, 100, 5000), lambda r, i: tg.gen_c18(r, long=True),
+                note="80-200 lifecycle actions on one API object"),
     ]
 
 
@@ -111,7 +118,9 @@ REAL_UDP = ("real: all of aioswitcher from the working tree (SwitcherBridge, Udp
 
 
 def c05_strata(tier: str) -> List[Stratum]:
-    return [Stratum("broadcasts", scale(tier, 16000, 2000000), lambda r, i: ug.gen_c05(r))]
+    return [Stratum("broadcasts", scale(tier, 16000, 2000000), lambda r, i: ug.gen_c05(r)),
+            Stratum("long-lived", scale(tier, 100, 5000), lambda r, i: ug.gen_c05(r, long=True),
+                    note="200-600 broadcasts to one running bridge")]
 
 
 def c06_strata(tier: str) -> List[Stratum]:
@@ -125,7 +134,9 @@ def c06_strata(tier: str) -> List[Stratum]:
 
 
 def c07_strata(tier: str) -> List[Stratum]:
-    return [Stratum("traffic", scale(tier, 14000, 2000000), lambda r, i: ug.gen_c07(r))]
+    return [Stratum("traffic", scale(tier, 14000, 2000000), lambda r, i: ug.gen_c07(r)),
+            Stratum("long-lived", scale(tier, 100, 5000), lambda r, i: ug.gen_c07(r, long=True),
+                    note="200-600 datagrams to one running bridge")]
 
 
 def c17_strata(tier: str) -> List[Stratum]:
@@ -135,6 +146,10 @@ def c17_strata(tier: str) -> List[Stratum]:
         Stratum("all-sequences", n, lambda r, i: ug.gen_c17(r, i, m), systematic=True,
                 note="every well-behaved sequence up to length %d over {start, stop, send, occupy i, release i} on 2 ports" % m),
         Stratum("random", scale(tier, 9000, 900000), lambda r, i: ug.gen_c17(r)),
+        Stratum("several-bridges", scale(tier, 3000, 300000), lambda r, i: ug.gen_c17_two(r),
+                note="two or three bridge objects in one process on overlapping or disjoint ports"),
+        Stratum("long-lived", scale(tier, 100, 5000), lambda r, i: ug.gen_c17(r, long=True),
+                note="80-200 lifecycle actions on one bridge object"),
     ]
 
 
@@ -178,11 +193,13 @@ def build() -> Dict[str, Prop]:
                     "receive-queue overflow/socket errors and callbacks raising on chosen invocations; callback log must be an "
                     "interleaving of the per-port arrival logs",
                     REAL_UDP, ["probe:callback-raised", "probe:duplicate-arrival", "probe:reordered-pair",
-                               "probe:junk-between-valid", "probe:socket-error", "probe:multi-port"])
+                               "probe:junk-between-valid", "probe:socket-error", "probe:multi-port",
+                               "probe:second-bridge-object", "probe:mirrored-to-second-port"])
     P["C17"] = Prop("C17", "exploration", uo.judge_c17, c17_strata,
                     "all short start/stop/send/occupy/release sequences on 2 ports + seeded random ones on 1-4 ports, with "
                     "datagrams in flight or queued at stop; running flag and port table vs lifecycle model after every action",
-                    REAL_UDP, ["probe:start-with-busy-port", "probe:restart", "probe:stop-while-stopped"])
+                    REAL_UDP, ["probe:start-with-busy-port", "probe:restart", "probe:stop-while-stopped",
+                               "probe:several-bridge-objects", "probe:start-while-running"])
     P["C01"] = Prop("C01", "exploration", to.judge_c01, c01_strata,
                     "seeded random operation sequences (all 15 op kinds, both API types, 1-2 clients) against device models; "
                     "every application write seen at the fake socket is judged as one frame",
